@@ -15,7 +15,7 @@ META = {
         'the sim runner exercises the coordinator only; real fork/spawn runs are gate-controlled or free-running samples',
     ],
     'tiers': {
-        'quick': {'shards': 16, 'budget_s': 40, 'n_spec_sim': 700, 'n_spec_real': 32, 'n_twins': 1200},
+        'quick': {'shards': 16, 'budget_s': 40, 'n_spec_sim': 700, 'n_spec_real': 64, 'n_twins': 1200},
         'thorough': {'shards': 16, 'budget_s': 330, 'n_spec_sim': 16000, 'n_spec_real': 480, 'n_twins': 20000},
     },
 }
@@ -54,7 +54,7 @@ def one_spec(rep, rng, real):
     from vlab import engine
     from vlab.dagcommon import gen_dag_scenario, is_nontrivial, scn_key, scn_summary
     import copy
-    first = 'sim' if not real else rng.choice(['serial', 'fork', 'fork', 'spawn'])
+    first = 'sim' if not real else rng.choice(['serial', 'serial', 'fork', 'fork', 'spawn'])
     nmax = rng.choice([5, 8, 12])
     scn = gen_dag_scenario(rng, backend=first, nmax=nmax)
     scn['pre_gen'] = 1          # cached values must equal recomputed ones
